@@ -44,9 +44,29 @@ def _selects_edgebreaker(toks, geom):
 def make_case(geom, toks, tags=()):
     toks = _strip(toks)
     gtext = geom.to_text()
-    op = "enc " + " ".join(toks) + " -- " + gtext
+    # `encdec` = `enc` followed by the real decodes of the produced stream: the implementation-side oracle below
+    # (encode ok => decode ok, valid, whole stream consumed, reported counts) needs them; the tie uses the `enc` part
+    op = "encdec " + " ".join(toks) + " -- " + gtext
     track = "track=1" in toks
     eb = _selects_edgebreaker(toks, geom)
+
+    def oracle(hout, case):
+        r = e2e.parse_encdec(hout)
+        if r["status"] != "ok" or not eb:
+            return None
+        n = len(r["hex"]) // 2
+        d = r["dec"]
+        if not d or d[0] != "ok":
+            return ("encode-ok-decode-fails", f"encoding reported success but decoding the {n}-byte stream failed ({' '.join(d)[:60]}) for `{case.op[:300]}`")
+        if int(d[1]) != n:
+            return ("decode-consumed", f"decode consumed {d[1]} bytes of a {n}-byte stream for `{case.op[:300]}`")
+        g2, _ = G.parse_geom(d, 2)
+        v = g2.valid()
+        if v or any(getattr(a, "short", False) for a in g2.atts):
+            return ("decoded-geometry-invalid", f"decoded geometry is not structurally valid: {v or 'attribute buffer too small'} for `{case.op[:300]}`")
+        if track and (r["nep"] != g2.num_points or r["nef"] != len(g2.faces)):
+            return ("encoded-counts", f"encoder reported {r['nep']} points / {r['nef']} faces, decoder produced {g2.num_points} / {len(g2.faces)} for `{case.op[:300]}`")
+        return None
 
     def model(hout):
         if not eb or geom.num_points == 0:
@@ -65,6 +85,7 @@ def make_case(geom, toks, tags=()):
     def expect(hout, mout, case):
         if mout is None:
             return None
+        hout = hout.split(" | ")[0]
         mp = mout.split()
         if not mp or mp[0] in ("unsupported", "not-edgebreaker"):
             return None          # outside the encoder model: no claim (shown in the input distribution)
@@ -90,7 +111,7 @@ def make_case(geom, toks, tags=()):
         """same bytes on both sides: the model-side evaluations are statements about the implementation's stream"""
         if mout is None or not hout.startswith("ok "):
             return None
-        hp, mp = hout.split(), mout.split()
+        hp, mp = hout.split(" | ")[0].split(), mout.split()
         if len(mp) < 7 or mp[0] != "ok" or mp[1] != hp[1]:
             return None
         rt, iso, counts = mp[4], mp[5], mp[6]
@@ -114,7 +135,7 @@ def make_case(geom, toks, tags=()):
             return "ebenc:" + mp[0]
         return "ebenc:ok:" + ":".join(mp[4:7])
 
-    c = Case(op, model=model, expect=expect, tags=("ebenc",) + tuple(tags))
+    c = Case(op, model=model, expect=expect, oracle=oracle, tags=("ebenc",) + tuple(tags))
     c.spec = spec
     c.mtag = mtag
     if geom.num_points == 0:
